@@ -287,33 +287,6 @@ fn fe_sub_is_field_sub_32() { check_sub() }
 #[kani::unwind(34)]
 fn fe_neg_is_field_neg_32() { check_neg() }
 
-// ---- sliding-window recoding (input of double_scalarmult_vartime): for scalars below 2^24 (three symbolic bytes, the rest
-// zero) the signed digits r[j] are zero or odd with |r[j]| <= 15 and sum r[j] 2^j is the scalar; bounded stand-in (the loops
-// are data-dependent; the full 256-bit domain is beyond CBMC's unwinding), both builds
-fn check_slide_small() {
-    let b0: u8 = kani::any();
-    let b1: u8 = kani::any();
-    let b2: u8 = kani::any();
-    let mut enc = [0u8; 32];
-    enc[0] = b0;
-    enc[1] = b1;
-    enc[2] = b2;
-    let s = Scalar::from_bytes(&enc);
-    let r = s.slide();
-    let mut acc: i64 = 0;
-    let mut j = 40;
-    while j > 0 {
-        j -= 1;
-        acc = acc * 2 + r[j] as i64;
-        assert!(r[j] == 0 || (r[j] % 2 != 0 && r[j] >= -15 && r[j] <= 15), "digit is zero or odd in [-15, 15]");
-    }
-    assert!(acc == (b0 as i64) + ((b1 as i64) << 8) + ((b2 as i64) << 16), "the digits represent the scalar");
-    let k: usize = kani::any();
-    kani::assume(k >= 40 && k < 256);
-    assert!(r[k] == 0, "no digit beyond the scalar's length (plus carry room)");
-    kani::cover!(true);
-}
-// @harness props=C14,C15,C17 kind=bounded bound=scalar<2^24 tier=thorough build=default timeout=3000
-#[kani::proof]
-#[kani::unwind(258)]
-fn scalar_slide_small_is_signed_window_form() { check_slide_small() }
+// A bounded harness for the sliding-window recoding `slide()` (scalars below 2^24) and a table-lookup harness for
+// `GePrecomp::select` were tried and removed: CBMC runs out of memory on both (data-dependent nested loops unwound 256 times;
+// a symbolic index into the 32 x 8 x 3 field-element table).  Both stay inside the assumed group layer.
